@@ -63,6 +63,10 @@ add("C14", "runtime monitoring: boundary monitors on the exporters / importers w
     "Generated circuits over all exportable operations (wrappers, PhaseDagger, identities, classically controlled gates, measure-and-reset, register indices >= 10, add and insert_at placement) are exported and re-imported through openQASM and JSON; registers, per-register operation sequences, the attributes the compilers read and the forced-outcome compiled states must agree; the text is parsed by qiskit's openQASM 2 parser and every outcome branch (up to 8 per circuit) simulated by the dense reference must equal the reference semantics of the specification.",
     TRUST + "qiskit.qasm2 is trusted as 'standard openQASM 2.0 semantics'.", "DESIGN.md section 5, C14")
 
+add("C13", "runtime monitoring: (a) rewrite equivalence judged through the lock-step compile monitor and the reference; (b) offline history checker - before and after every call of a random interleaving of library calls on a pool of shared objects, fingerprints of ALL pool objects are recorded and any change of an object the call must not modify is a refutation",
+    "(a) Each rewrite (copy, unwrap_nodes, group_one_qubit_gates, remove_identity, assign_noise with an empty map) of generated programs is compiled under forced outcomes by both backends and compared with the original, whose own compile is judged against the reference; repeated compiles must agree. (b) Histories of 5-25 calls over {compile with both backends / noise on-off / initial states, metric evaluation, TimeReversedSolver on targets in all three representations, assign_noise, MonteCarloNoise, compare, export, rewrites on copies} with fingerprints (operations, labels, wrapper contents, attached noise; denoted state of targets and initial states; noise maps) of every pool object after every call.",
+    TRUST + "Compiler objects are configuration and are not fingerprinted.", "DESIGN.md section 5, C13")
+
 NOT_YET = {
 }
 
